@@ -57,30 +57,27 @@ def navigate (row : List (Bytes × Val)) : List Bytes → Option Val
   | [k] => lookup row k
   | k :: rest => (lookup row k).bind fun v => (asRow v).bind fun sub => navigate sub rest
 
-mutual
-  /-- `FindValuesAtPath` over the split keys (`SplitN(path, ".", 2)` at each level). -/
-  def findValues : Nat → List (Bytes × Val) → List Bytes → Option (List Val)
-    | 0, _, _ => none
-    | _, _, [] => none
-    | _, row, [k] => (lookup row k).map fun v => [v]
-    | fuel + 1, row, k :: rest =>
-      match lookup row k with
-      | none => none
-      | some v =>
-        match asRow v with
-        | some sub => findValues fuel sub rest
-        | none =>
-          match Cells.raw v with
-          | .arr xs => some (findInList fuel xs rest)
-          | _ => none
-  def findInList : Nat → DynList → List Bytes → List Val
-    | 0, _, _ => []
-    | _, .nil, _ => []
-    | fuel + 1, .cons x xs, rest =>
-      (match x with
-       | .val (.row ms) => (findValues fuel ms.toList rest).getD []
-       | _ => []) ++ findInList fuel xs rest
-end
+/-- `FindValuesAtPath` over the split keys (`SplitN(path, ".", 2)` at each level): through rows
+    (either representation); through an array, the results of its row elements are concatenated in
+    order, other elements are skipped. `fuel` bounds the number of keys consumed, never the length
+    of an array. -/
+def findValues : Nat → List (Bytes × Val) → List Bytes → Option (List Val)
+  | 0, _, _ => none
+  | _, _, [] => none
+  | _, row, [k] => (lookup row k).map fun v => [v]
+  | fuel + 1, row, k :: rest =>
+    match lookup row k with
+    | none => none
+    | some v =>
+      match asRow v with
+      | some sub => findValues fuel sub rest
+      | none =>
+        match Cells.raw v with
+        | .arr xs => some (xs.toList.foldl (fun acc x =>
+            match x with
+            | .val (.row ms) => acc ++ (findValues fuel ms.toList rest).getD []
+            | _ => acc) [])
+        | _ => none
 
 def findValuesAtPath (row : List (Bytes × Val)) (path : Bytes) : Option (List Val) :=
   findValues (path.length + 2) row (splitDots path)
